@@ -27,6 +27,11 @@ Proof.
     apply qn_eqb_qs in E; subst x. rewrite Eb. reflexivity.
 Qed.
 
+Lemma memf_cons : forall x y l, memf x (y :: l) = fact_eqb x y || memf x l.
+Proof. reflexivity. Qed.
+Lemma memf_nil : forall x, memf x [] = false.
+Proof. reflexivity. Qed.
+
 Lemma memq_names : forall n ns, memq (QS n) (names ns) = mem_name n ns.
 Proof. intros n ns. induction ns; simpl; [reflexivity|]. rewrite IHns. reflexivity. Qed.
 
@@ -81,3 +86,774 @@ Proof.
   destruct (hidden f q); [simpl; auto|].
   destruct c; simpl; auto. destruct (fl_incomp f); simpl; auto.
 Qed.
+
+(* ---------------------------------------------------------------- unfolding equations *)
+Section Eqs.
+Variable Q : quirks.
+Lemma visit_lambda : forall f args body,
+  visit Q f (N KLambda (NCons args (NCons body NNil))) =
+  union (fin_noniso (visit_args_annot Q (enter f false false) args))
+        (fin_iso (union (fin_noniso (visit_args_decl Q (enter f false false) args))
+                        (fin_noniso (visit Q (enter f false false) body)))).
+Proof. reflexivity. Qed.
+Lemma visit_def : forall f n decos rets args body,
+  visit Q f (N (KDef n) (NCons decos (NCons rets (NCons args (NCons body NNil))))) =
+  let f' := enter f false (fl_pcls f && Nat.eqb n INIT) in
+  union (fin_noniso (union (visit Q f' decos)
+                    (union (visit Q (with_ann f') rets)
+                    (union (visit_args_annot Q f' args) (bind_name n)))))
+        (fin_iso (union (fin_noniso (visit_args_decl Q f' args)) (fin_noniso (visit Q f' body)))).
+Proof. reflexivity. Qed.
+Lemma visit_class : forall f n decos bases body,
+  visit Q f (N (KClass n) (NCons decos (NCons bases (NCons body NNil)))) =
+  let f' := enter f true false in
+  union (fin_noniso (union (visit Q f' decos) (union (bind_name n) (visit Q f' bases))))
+        (fin_iso (union (visit Q f' decos) (union (visit Q f' bases) (visit Q f' body)))).
+Proof. reflexivity. Qed.
+Lemma visit_comp : forall f kg gens elts,
+  visit Q f (N KComp (NCons (N kg gens) (NCons elts NNil))) =
+  let '(s, tg) := visit_gens Q f (fl_tg f) gens in union s (visit Q (with_tg f tg) elts).
+Proof. reflexivity. Qed.
+Lemma visit_args_annot_eq : forall f k dflt decls,
+  visit_args_annot Q f (N k (NCons dflt (NCons decls NNil))) =
+  union (visit Q f dflt) (visit Q (with_annonly f) decls).
+Proof. reflexivity. Qed.
+Lemma visit_args_decl_eq : forall f k dflt decls,
+  visit_args_decl Q f (N k (NCons dflt (NCons decls NNil))) = visit Q f decls.
+Proof. reflexivity. Qed.
+Lemma visit_gen : forall f ch, visit Q f (N KGen ch) = visit_list Q f ch.
+Proof. reflexivity. Qed.
+Lemma visit_cons : forall f t r, visit_list Q f (NCons t r) = union (visit Q f t) (visit_list Q f r).
+Proof. reflexivity. Qed.
+Lemma visit_arg : forall f n ch,
+  visit Q f (N (KArg n) ch) =
+  if fl_annonly f then
+    union (if q_annmiss Q then visit_list Q f ch else visit_list Q (with_ann f) ch)
+          (if q_leak Q then bind_param n else empty)
+  else union (if q_annfn Q then visit_list Q f ch else empty) (bind_param n).
+Proof. reflexivity. Qed.
+Lemma visit_gens_cons : forall f tg k tgt it ifs r,
+  visit_gens Q f tg (NCons (N k (NCons tgt (NCons it (NCons ifs NNil)))) r) =
+  let s1 := visit Q (with_tg f tg) it in
+  let tg' := tg ++ targets tgt in
+  let s2 := union (visit Q (with_tg f tg') it) (visit Q (with_tg f tg') ifs) in
+  let '(s3, tg'') := visit_gens Q f tg' r in
+  (union s1 (union s2 s3), tg'').
+Proof. reflexivity. Qed.
+
+Lemma facts_lambda : forall args body,
+  facts Q (N KLambda (NCons args (NCons body NNil))) = facts_args Q args ++ leak Q args.
+Proof. reflexivity. Qed.
+Lemma facts_def : forall n decos rets args body,
+  facts Q (N (KDef n) (NCons decos (NCons rets (NCons args (NCons body NNil))))) =
+  FBind n :: FWrite n :: facts Q decos ++ facts Q rets ++ facts_args Q args ++ leak Q args.
+Proof. reflexivity. Qed.
+Lemma facts_class : forall n decos bases body,
+  facts Q (N (KClass n) (NCons decos (NCons bases (NCons body NNil)))) =
+  FBind n :: FWrite n :: facts Q decos ++ facts Q bases.
+Proof. reflexivity. Qed.
+Lemma facts_comp : forall kg gens elts,
+  facts Q (N KComp (NCons (N kg gens) (NCons elts NNil))) = facts_gens Q gens ++ facts Q elts.
+Proof. reflexivity. Qed.
+Lemma facts_args_eq : forall k dflt kd decls,
+  facts_args Q (N k (NCons dflt (NCons (N kd decls) NNil))) = facts Q dflt ++ annot_facts Q (facts_decls Q decls).
+Proof. reflexivity. Qed.
+Lemma facts_gens_cons : forall k tgt it ifs r,
+  facts_gens Q (NCons (N k (NCons tgt (NCons it (NCons ifs NNil)))) r) =
+  map FComp (simple_names (targets tgt)) ++ facts Q it ++ facts Q ifs ++ facts_gens Q r.
+Proof. reflexivity. Qed.
+Lemma facts_decls_cons : forall n ch r,
+  facts_decls Q (NCons (N (KArg n) ch) r) = facts_list Q ch ++ facts_decls Q r.
+Proof. reflexivity. Qed.
+Lemma facts_cons : forall t r, facts_list Q (NCons t r) = facts Q t ++ facts_list Q r.
+Proof. reflexivity. Qed.
+Lemma visit_stmt : forall f ch, visit Q f (N KStmt ch) = fin_noniso (visit_list Q f ch).
+Proof. reflexivity. Qed.
+Lemma visit_with : forall f ch, visit Q f (N KWith ch) = fin_noniso (visit_list Q f ch).
+Proof. reflexivity. Qed.
+Lemma visit_block : forall f ch, visit Q f (N KBlock ch) = fin_noniso (visit_list Q f ch).
+Proof. reflexivity. Qed.
+Lemma visit_handler : forall f nm ch, visit Q f (N (KHandler nm) ch) = fin_handler nm (visit_list Q f ch).
+Proof. reflexivity. Qed.
+Lemma visit_name : forall f n c ch, visit Q f (N (KName n c) ch) = track f (QS n) c false.
+Proof. reflexivity. Qed.
+Lemma visit_attr : forall f a c ch, visit Q f (N (KAttr a c) ch) =
+  union (visit_list Q f ch) (match qn_of (N (KAttr a c) ch) with
+                             | Some q => track f q c (fl_ctor f && sets_self q) | None => empty end).
+Proof. reflexivity. Qed.
+Lemma visit_sub : forall f c ch, visit Q f (N (KSub c) ch) =
+  union (visit_list Q f ch) (match qn_of (N (KSub c) ch) with
+                             | Some q => track f q c false | None => empty end).
+Proof. reflexivity. Qed.
+Lemma visit_aug : forall f tg v, visit Q f (N KAug (NCons tg (NCons v NNil))) =
+  fin_noniso (union (visit Q (with_aug f) tg) (visit Q f v)).
+Proof. reflexivity. Qed.
+Lemma visit_ann : forall f tg v a, visit Q f (N KAnn (NCons tg (NCons v (NCons a NNil)))) =
+  fin_noniso (union (visit Q f tg) (union (visit Q f v) (visit Q (with_ann f) a))).
+Proof. reflexivity. Qed.
+Lemma visit_global : forall f ns ch, visit Q f (N (KGlobal ns) ch) =
+  fin_noniso (mksc (names ns) [] [] [] (names ns) [] [] []).
+Proof. reflexivity. Qed.
+Lemma visit_nonlocal : forall f ns ch, visit Q f (N (KNonlocal ns) ch) =
+  fin_noniso (mksc (names ns) [] (names ns) [] [] (names ns) [] []).
+Proof. reflexivity. Qed.
+Lemma visit_alias : forall f n ch, visit Q f (N (KAlias n) ch) = union (visit_list Q f ch) (bind_name n).
+Proof. reflexivity. Qed.
+Lemma visit_if : forall f tst r, visit Q f (N KIf (NCons tst r)) = union (fin_noniso (visit Q f tst)) (visit_list Q f r).
+Proof. reflexivity. Qed.
+Lemma visit_while : forall f tst r, visit Q f (N KWhile (NCons tst r)) = union (fin_noniso (visit Q f tst)) (visit_list Q f r).
+Proof. reflexivity. Qed.
+Lemma visit_for : forall f tg it r, visit Q f (N KFor (NCons tg (NCons it r))) =
+  union (fin_noniso (union (visit Q f tg) (visit Q f it))) (union (fin_noniso (visit Q f tg)) (visit_list Q f r)).
+Proof. reflexivity. Qed.
+Lemma facts_aug : forall tg v, facts Q (N KAug (NCons tg (NCons v NNil))) =
+  (match tg with N (KName n Store) _ => [FRead n] | _ => [] end) ++ facts Q tg ++ facts Q v.
+Proof. reflexivity. Qed.
+Lemma facts_ann : forall tg v a, facts Q (N KAnn (NCons tg (NCons v (NCons a NNil)))) = facts Q tg ++ facts Q v ++ facts Q a.
+Proof. reflexivity. Qed.
+Lemma facts_for : forall tg it r, facts Q (N KFor (NCons tg (NCons it r))) = facts Q tg ++ facts Q it ++ facts_list Q r.
+Proof. reflexivity. Qed.
+End Eqs.
+
+(* ---------------------------------------------------------------- inside comprehensions / annotations *)
+Section Proofs.
+Variable Q : quirks.
+
+Definition nob (F : list fact) : Prop :=
+  forall n, memf (FBind n) F = false /\ memf (FDeclG n) F = false /\ memf (FDeclN n) F = false.
+
+(* the contribution of a cpure node: it binds nothing but exempt names and declares nothing *)
+Definition C2 (s : scope) (F : list fact) : Prop :=
+  (forall n, memq (QS n) (bd s) = true -> memf (FExempt n) F = true)
+  /\ (forall n, memq (QS n) (gl s) = false) /\ (forall n, memq (QS n) (nl s) = false) /\ nob F.
+
+Lemma nob_nil : nob [].
+Proof. intro n; simpl; auto. Qed.
+
+Lemma nob_app : forall F G, nob F -> nob G -> nob (F ++ G).
+Proof.
+  intros F G HF HG n. destruct (HF n) as [a [b c]]. destruct (HG n) as [a' [b' c']].
+  rewrite !memf_app, a, b, c, a', b', c'. auto.
+Qed.
+
+Lemma C2_empty : C2 empty [].
+Proof. repeat split; simpl; auto; discriminate. Qed.
+
+Lemma C2_union : forall s1 s2 F1 F2, C2 s1 F1 -> C2 s2 F2 -> C2 (union s1 s2) (F1 ++ F2).
+Proof.
+  intros s1 s2 F1 F2 [b1 [g1 [n1 o1]]] [b2 [g2 [n2 o2]]]. repeat split; simpl.
+  - intros n H. rewrite memq_app in H. rewrite memf_app. apply orb_true_iff in H. destruct H as [H|H].
+    + rewrite (b1 n H). reflexivity.
+    + rewrite (b2 n H). apply orb_true_r.
+  - intros n. rewrite memq_app, g1, g2. reflexivity.
+  - intros n. rewrite memq_app, n1, n2. reflexivity.
+  - apply nob_app; assumption.
+  - apply nob_app; assumption.
+  - apply nob_app; assumption.
+Qed.
+
+Lemma C2_fin : forall s F, C2 s F -> C2 (fin_noniso s) F.
+Proof. intros s F [b [g [n o]]]. repeat split; simpl; auto; apply o. Qed.
+
+Lemma C2_fin_iso : forall s, C2 (fin_iso s) [].
+Proof. intros s. repeat split; simpl; auto; discriminate. Qed.
+
+Lemma C2_nil_r : forall s F, C2 s F -> C2 s (F ++ []).
+Proof. intros; rewrite app_nil_r; assumption. Qed.
+
+Lemma C2_track_comp : forall f q c al, composite q -> C2 (track f q c al) [].
+Proof.
+  intros f q c al H. repeat split; simpl; auto.
+  - intros n Hn. destruct (track_composite f q c al n H) as [E _]. rewrite E in Hn. discriminate.
+  - intros n. destruct (track_composite f q c al n H) as [_ [E _]]. rewrite E. reflexivity.
+  - intros n. destruct (track_composite f q c al n H) as [_ [_ E]]. rewrite E. reflexivity.
+Qed.
+
+Lemma C2_track_load : forall f m, C2 (track f (QS m) Load false) [FUse m; FRead m].
+Proof.
+  intros f m. unfold track.
+  destruct (fl_annonly f && negb (fl_ann f)); [repeat split; simpl; auto; discriminate|].
+  destruct (hidden f (QS m)); repeat split; simpl; auto; discriminate.
+Qed.
+
+Lemma memf_annot : forall x F, is_read x = false -> memf x (annot_facts Q F) = memf x F.
+Proof.
+  intros x F Hx. unfold annot_facts. destruct (q_annmiss Q); [|reflexivity].
+  induction F as [|y F IH]; [reflexivity|]. simpl.
+  destruct (is_read y) eqn:Ey; simpl.
+  - rewrite IH. destruct x, y; simpl in *; try discriminate; reflexivity.
+  - rewrite IH. reflexivity.
+Qed.
+
+Lemma nob_annot : forall F, nob F -> nob (annot_facts Q F).
+Proof. intros F H n. rewrite !memf_annot by reflexivity. apply H. Qed.
+
+Lemma nob_exempt : forall ns, nob (map FExempt ns).
+Proof. intros ns n. rewrite !memf_map by (intro; reflexivity). auto. Qed.
+
+Lemma nob_comp : forall ns, nob (map FComp ns).
+Proof. intros ns n. rewrite !memf_map by (intro; reflexivity). auto. Qed.
+
+Lemma nob_leak : forall args, nob (leak Q args).
+Proof. intros args. unfold leak. destruct (q_leak Q); [apply nob_exempt | apply nob_nil]. Qed.
+
+(* what the annotation pass over the parameter declarations contributes *)
+Definition D2 (s : scope) (ts : nodes) : Prop :=
+  (forall n, memq (QS n) (bd s) = true ->
+     memf (FExempt n) (facts_decls Q ts) = true \/ (q_leak Q = true /\ mem_name n (arg_names ts) = true))
+  /\ (forall n, memq (QS n) (gl s) = false) /\ (forall n, memq (QS n) (nl s) = false)
+  /\ nob (facts_decls Q ts).
+
+Lemma cp_visit : forall t f, cpure t = true -> C2 (visit Q f t) (facts Q t)
+with cp_list : forall ts f, cpure_list ts = true -> C2 (visit_list Q f ts) (facts_list Q ts)
+with cp_decls : forall ts f, fl_annonly f = true -> decls_ok ts = true -> D2 (visit_list Q f ts) ts
+with cp_gens : forall ts f tg, gens_ok ts = true -> C2 (fst (visit_gens Q f tg ts)) (facts_gens Q ts).
+Proof.
+  - (* node *)
+    intros t f H. destruct t as [k ch]. destruct k; simpl in H; try discriminate.
+    + (* KGen *) simpl. apply cp_list; assumption.
+    + (* KName *) destruct c; try discriminate. simpl. apply C2_track_load.
+    + (* KAttr *)
+      change (visit Q f (N (KAttr a c) ch)) with
+        (union (visit_list Q f ch) (match qn_of (N (KAttr a c) ch) with
+                                    | Some q => track f q c (fl_ctor f && sets_self q) | None => empty end)).
+      change (facts Q (N (KAttr a c) ch)) with (facts_list Q ch).
+      rewrite <- (app_nil_r (facts_list Q ch)). apply C2_union; [apply cp_list; assumption|].
+      destruct (qn_of (N (KAttr a c) ch)) eqn:E; [|apply C2_empty].
+      apply C2_track_comp. eapply qn_of_attr; eassumption.
+    + (* KSub *)
+      change (visit Q f (N (KSub c) ch)) with
+        (union (visit_list Q f ch) (match qn_of (N (KSub c) ch) with
+                                    | Some q => track f q c false | None => empty end)).
+      change (facts Q (N (KSub c) ch)) with (facts_list Q ch).
+      rewrite <- (app_nil_r (facts_list Q ch)). apply C2_union; [apply cp_list; assumption|].
+      destruct (qn_of (N (KSub c) ch)) eqn:E; [|apply C2_empty].
+      apply C2_track_comp. eapply qn_of_sub; eassumption.
+    + (* KConst *) simpl. apply C2_empty.
+    + (* KLambda *)
+      destruct ch as [|[ka [|dflt [|[kd decls] [|]]]] [|body [|]]]; simpl in H; try discriminate;
+        destruct kd; simpl in H; try discriminate.
+      apply andb_true_iff in H. destruct H as [H Hb]. apply andb_true_iff in H. destruct H as [Hd Hk].
+      rewrite visit_lambda, facts_lambda, visit_args_annot_eq, facts_args_eq, visit_gen.
+      set (f' := enter f false false).
+      rewrite <- (app_nil_r (_ ++ leak Q _)).
+      apply C2_union; [|apply C2_fin_iso].
+      apply C2_fin.
+      pose proof (cp_visit dflt f' Hd) as [b1 [g1 [n1 o1]]].
+      pose proof (cp_decls decls (with_annonly f') eq_refl Hk) as [b2 [g2 [n2 o2]]].
+      repeat split; simpl.
+      * intros n Hn. rewrite memq_app in Hn. rewrite !memf_app. apply orb_true_iff in Hn. destruct Hn as [Hn|Hn].
+        -- rewrite (b1 n Hn). reflexivity.
+        -- destruct (b2 n Hn) as [E|[E1 E2]].
+           ++ rewrite memf_annot by reflexivity. rewrite E. btauto.
+           ++ unfold leak. rewrite E1. simpl params.
+              rewrite (memf_map_same FExempt) by (intro; reflexivity). rewrite E2. btauto.
+      * intros n. rewrite memq_app, g1, g2. reflexivity.
+      * intros n. rewrite memq_app, n1, n2. reflexivity.
+      * apply nob_app; [apply nob_app; [assumption | apply nob_annot; assumption] | apply nob_leak].
+      * apply nob_app; [apply nob_app; [assumption | apply nob_annot; assumption] | apply nob_leak].
+      * apply nob_app; [apply nob_app; [assumption | apply nob_annot; assumption] | apply nob_leak].
+    + (* KComp *)
+      destruct ch as [|[kg gens] [|elts [|]]]; simpl in H; try discriminate.
+      apply andb_true_iff in H. destruct H as [Hg He].
+      rewrite visit_comp, facts_comp. pose proof (cp_gens gens f (fl_tg f) Hg) as G.
+      destruct (visit_gens Q f (fl_tg f) gens) as [s tg]. simpl in G.
+      apply C2_union; [assumption | apply cp_visit; assumption].
+  - (* list *)
+    intros ts f H. destruct ts as [|t r]; simpl.
+    + apply C2_empty.
+    + simpl in H. apply andb_true_iff in H. destruct H as [H1 H2].
+      apply C2_union; [apply cp_visit | apply cp_list]; assumption.
+  - (* parameter declarations, annotation pass *)
+    intros ts f Ha H. destruct ts as [|t r].
+    + repeat split; simpl; auto; try discriminate.
+    + destruct t as [k ch]. simpl in H. destruct k; try discriminate.
+      apply andb_true_iff in H. destruct H as [Hc Hr].
+      pose proof (cp_decls r f Ha Hr) as [b2 [g2 [n2 o2]]].
+      assert (A : C2 (if q_annmiss Q then visit_list Q f ch else visit_list Q (with_ann f) ch) (facts_list Q ch)).
+      { destruct (q_annmiss Q); apply cp_list; assumption. }
+      destruct A as [b1 [g1 [n1 o1]]].
+      unfold D2. rewrite visit_cons, visit_arg, Ha, facts_decls_cons.
+      repeat split.
+      * intros m Hm. simpl facts_decls. simpl arg_names. simpl in Hm. rewrite !memq_app in Hm.
+        rewrite memf_app. simpl mem_name.
+        apply orb_true_iff in Hm. destruct Hm as [Hm|Hm]; [apply orb_true_iff in Hm; destruct Hm as [Hm|Hm]|].
+        -- left. rewrite (b1 m Hm). reflexivity.
+        -- destruct (q_leak Q) eqn:El; simpl in Hm; [|discriminate].
+           right. split; [reflexivity|]. rewrite orb_false_r in Hm. rewrite Hm. reflexivity.
+        -- destruct (b2 m Hm) as [E|[E1 E2]]; [left; rewrite E; apply orb_true_r | right; split; [assumption|rewrite E2; apply orb_true_r]].
+      * intros m. simpl. rewrite !memq_app, g1, g2. destruct (q_leak Q); reflexivity.
+      * intros m. simpl. rewrite !memq_app, n1, n2. destruct (q_leak Q); reflexivity.
+      * simpl facts_decls. apply nob_app; assumption.
+      * simpl facts_decls. apply nob_app; assumption.
+      * simpl facts_decls. apply nob_app; assumption.
+  - (* generators *)
+    intros ts f tg H. destruct ts as [|t r]; [apply C2_empty|].
+    destruct t as [k [|tgt [|it [|ifs [|]]]]]; simpl in H; try discriminate.
+    apply andb_true_iff in H. destruct H as [H Hr]. apply andb_true_iff in H. destruct H as [Hi Hf].
+    rewrite visit_gens_cons, facts_gens_cons. cbv zeta.
+    pose proof (cp_gens r f (tg ++ targets tgt) Hr) as G.
+    destruct (visit_gens Q f (tg ++ targets tgt) r) as [s3 tg'']. simpl fst in *.
+    (* s1 and the second visit of iter both bind nothing *)
+    pose proof (cp_visit it (with_tg f tg) Hi) as [b1 [g1 [n1 o1]]].
+    pose proof (cp_visit it (with_tg f (tg ++ targets tgt)) Hi) as [b1' [g1' [n1' o1']]].
+    pose proof (cp_visit ifs (with_tg f (tg ++ targets tgt)) Hf) as [b2 [g2 [n2 o2]]].
+    destruct G as [b3 [g3 [n3 o3]]].
+    repeat split; simpl.
+    + intros n Hn. rewrite !memq_app in Hn. rewrite !memf_app.
+      repeat (apply orb_true_iff in Hn; destruct Hn as [Hn|Hn]).
+      * rewrite (b1 n Hn). btauto.
+      * rewrite (b1' n Hn). btauto.
+      * rewrite (b2 n Hn). btauto.
+      * rewrite (b3 n Hn). btauto.
+    + intros n. rewrite !memq_app, g1, g1', g2, g3. reflexivity.
+    + intros n. rewrite !memq_app, n1, n1', n2, n3. reflexivity.
+    + apply nob_app; [apply nob_comp|]. repeat apply nob_app; assumption.
+    + apply nob_app; [apply nob_comp|]. repeat apply nob_app; assumption.
+    + apply nob_app; [apply nob_comp|]. repeat apply nob_app; assumption.
+Qed.
+
+(*MAIN*)
+(* ---------------------------------------------------------------- the main invariant *)
+Definition fok (f : flags) : Prop := fl_annonly f = false /\ fl_incomp f = false /\ fl_tg f = [].
+Definition bnd (n : name) (F : list fact) : bool := memf (FBind n) F || memf (FDeclN n) F.
+
+(* what a node adds to bound / globals / nonlocals of the enclosing scope is what the binding rule
+   says it binds / declares in the block (names exempt in the node aside) *)
+Definition C3 (s : scope) (F : list fact) : Prop :=
+  (forall n, exemptf n F = false -> memq (QS n) (bd s) = bnd n F)
+  /\ (forall n, memq (QS n) (gl s) = memf (FDeclG n) F)
+  /\ (forall n, memq (QS n) (nl s) = memf (FDeclN n) F).
+
+Lemma exemptf_app : forall n F G, exemptf n (F ++ G) = exemptf n F || exemptf n G.
+Proof. intros. unfold exemptf. rewrite !memf_app. btauto. Qed.
+
+Lemma bnd_app : forall n F G, bnd n (F ++ G) = bnd n F || bnd n G.
+Proof. intros. unfold bnd. rewrite !memf_app. btauto. Qed.
+
+Lemma C3_empty : C3 empty [].
+Proof. repeat split; simpl; auto. Qed.
+
+Lemma C3_union : forall s1 s2 F1 F2, C3 s1 F1 -> C3 s2 F2 -> C3 (union s1 s2) (F1 ++ F2).
+Proof.
+  intros s1 s2 F1 F2 [b1 [g1 n1]] [b2 [g2 n2]]. repeat split; simpl.
+  - intros n H. rewrite exemptf_app in H. apply orb_false_iff in H. destruct H as [H1 H2].
+    rewrite memq_app, bnd_app, (b1 n H1), (b2 n H2). reflexivity.
+  - intros n. rewrite memq_app, memf_app, g1, g2. reflexivity.
+  - intros n. rewrite memq_app, memf_app, n1, n2. reflexivity.
+Qed.
+
+Lemma C3_fin : forall s F, C3 s F -> C3 (fin_noniso s) F.
+Proof. intros s F [b [g n]]. repeat split; simpl; auto. Qed.
+
+Lemma C3_fin_iso : forall s, C3 (fin_iso s) [].
+Proof. intros s. repeat split; simpl; auto. Qed.
+
+Definition rel (x : fact) : bool :=
+  match x with FBind _ | FDeclG _ | FDeclN _ | FExempt _ | FComp _ => true | _ => false end.
+
+Lemma C3_ext : forall s F G, (forall x, rel x = true -> memf x F = memf x G) -> C3 s F -> C3 s G.
+Proof.
+  intros s F G E [b [g n]]. unfold C3, exemptf, bnd in *. repeat split.
+  - intros m H. rewrite <- (E (FExempt m) eq_refl), <- (E (FComp m) eq_refl) in H.
+    rewrite <- (E (FBind m) eq_refl), <- (E (FDeclN m) eq_refl). apply b; assumption.
+  - intros m. rewrite <- (E (FDeclG m) eq_refl). apply g.
+  - intros m. rewrite <- (E (FDeclN m) eq_refl). apply n.
+Qed.
+
+Lemma C3_of_C2 : forall s F, C2 s F -> C3 s F.
+Proof.
+  intros s F [b [g [n o]]]. repeat split.
+  - intros m H. unfold exemptf in H. apply orb_false_iff in H. destruct H as [H _].
+    unfold bnd. destruct (o m) as [o1 [_ o3]]. rewrite o1, o3. simpl.
+    destruct (memq (QS m) (bd s)) eqn:E; [|reflexivity]. rewrite (b m E) in H. discriminate.
+  - intros m. destruct (o m) as [_ [o2 _]]. rewrite g, o2. reflexivity.
+  - intros m. destruct (o m) as [_ [_ o3]]. rewrite n, o3. reflexivity.
+Qed.
+
+Lemma C3_bind_name : forall n, C3 (bind_name n) [FBind n; FWrite n].
+Proof.
+  intros n. repeat split; simpl; auto. intros m _. unfold bnd; simpl. btauto.
+Qed.
+
+Lemma hidden_fok : forall f q, fok f -> hidden f q = false.
+Proof.
+  intros f q [_ [_ H]]. unfold hidden. rewrite H. simpl.
+  induction (owners q); simpl; auto.
+Qed.
+
+Lemma C3_track : forall f n c ch, fok f -> C3 (track f (QS n) c false) (facts Q (N (KName n c) ch)).
+Proof.
+  intros f n c ch H. unfold track. rewrite (hidden_fok f (QS n) H).
+  destruct H as [H1 [H2 _]]. rewrite H1, H2. simpl.
+  destruct c; repeat split; simpl; auto; intros m _; unfold bnd; simpl; btauto.
+Qed.
+
+Lemma C3_handler : forall nm s F, C3 s F ->
+  C3 (fin_handler nm s) (match nm with Some m => FBind m :: FExempt m :: F | None => F end).
+Proof.
+  intros nm s F [b [g n]]. destruct nm as [m|]; repeat split; simpl; auto.
+  - intros k H. unfold exemptf in H. simpl in H.
+    rewrite memq_minus, memq_single. unfold bnd. simpl.
+    destruct (Nat.eqb k m) eqn:E; simpl in *; [discriminate|].
+    rewrite b by exact H. unfold bnd. btauto.
+  - intros k H. rewrite memq_minus. simpl. rewrite andb_true_r. apply b; assumption.
+Qed.
+
+Lemma fok_aug : forall f, fok f -> fok (with_aug f).
+Proof. intros f H; exact H. Qed.
+Lemma fok_ann : forall f, fok f -> fok (with_ann f).
+Proof. intros f H; exact H. Qed.
+Lemma fok_enter : forall f a b, fok f -> fok (enter f a b).
+Proof. intros f a b H; exact H. Qed.
+
+(* _visit_arg_annotations of a well-formed arguments node, seen from the defining block *)
+Lemma C3_args_annot : forall f ka dflt decls,
+  C3 (visit Q f dflt) (facts Q dflt) -> decls_ok decls = true ->
+  C3 (visit_args_annot Q f (N ka (NCons dflt (NCons (N KGen decls) NNil))))
+     (facts_args Q (N ka (NCons dflt (NCons (N KGen decls) NNil)))
+      ++ leak Q (N ka (NCons dflt (NCons (N KGen decls) NNil)))).
+Proof.
+  intros f ka dflt decls [b1 [g1 n1]] Hk.
+  rewrite visit_args_annot_eq, facts_args_eq, visit_gen.
+  pose proof (cp_decls decls (with_annonly f) eq_refl Hk) as [b2 [g2 [n2 o2]]].
+  assert (L : forall m, memf (FDeclG m) (leak Q (N ka (NCons dflt (NCons (N KGen decls) NNil)))) = false
+                     /\ memf (FDeclN m) (leak Q (N ka (NCons dflt (NCons (N KGen decls) NNil)))) = false
+                     /\ memf (FBind m) (leak Q (N ka (NCons dflt (NCons (N KGen decls) NNil)))) = false).
+  { intros m. destruct (nob_leak (N ka (NCons dflt (NCons (N KGen decls) NNil))) m) as [x [y z]]. auto. }
+  repeat split; simpl.
+  - intros m H. rewrite !exemptf_app in H. apply orb_false_iff in H. destruct H as [H H3].
+    apply orb_false_iff in H. destruct H as [H1 H2].
+    destruct (L m) as [_ [l2 l3]]. destruct (o2 m) as [p1 [_ p3]].
+    assert (Z1 : memq (QS m) (bd (visit_list Q (with_annonly f) decls)) = false).
+    { destruct (memq (QS m) (bd (visit_list Q (with_annonly f) decls))) eqn:E; [|reflexivity].
+      exfalso. destruct (b2 m E) as [X|[X1 X2]].
+      + unfold exemptf in H2. rewrite memf_annot in H2 by reflexivity. rewrite X in H2. discriminate.
+      + unfold exemptf, leak in H3. rewrite X1 in H3. simpl params in H3.
+        rewrite (memf_map_same FExempt) in H3 by (intro; reflexivity). rewrite X2 in H3. discriminate. }
+    assert (Z2 : bnd m (annot_facts Q (facts_decls Q decls)) = false).
+    { unfold bnd. rewrite !memf_annot by reflexivity. rewrite p1, p3. reflexivity. }
+    assert (Z3 : bnd m (leak Q (N ka (NCons dflt (NCons (N KGen decls) NNil)))) = false).
+    { unfold bnd. rewrite l2, l3. reflexivity. }
+    rewrite memq_app, !bnd_app, (b1 m H1), Z1, Z2, Z3. btauto.
+  - intros m. destruct (L m) as [l1 _]. destruct (o2 m) as [_ [p2 _]].
+    rewrite memq_app, !memf_app, g1, g2, l1, memf_annot, p2 by reflexivity. btauto.
+  - intros m. destruct (L m) as [_ [l2 _]]. destruct (o2 m) as [_ [_ p3]].
+    rewrite memq_app, !memf_app, n1, n2, l2, memf_annot, p3 by reflexivity. btauto.
+Qed.
+
+Lemma m_visit : forall t f, fok f -> wf t = true -> C3 (visit Q f t) (facts Q t)
+with m_list : forall ts f, fok f -> wf_list ts = true -> C3 (visit_list Q f ts) (facts_list Q ts).
+Proof.
+  - intros t f Hf H. destruct t as [k ch]. destruct k; simpl in H; try discriminate.
+    + (* KGen *) rewrite visit_gen. apply m_list; assumption.
+    + (* KStmt *) rewrite visit_stmt. apply C3_fin. apply m_list; assumption.
+    + (* KName *) rewrite visit_name. apply C3_track; assumption.
+    + (* KAttr *)
+      rewrite visit_attr. change (facts Q (N (KAttr a c) ch)) with (facts_list Q ch).
+      rewrite <- (app_nil_r (facts_list Q ch)). apply C3_union; [apply m_list; assumption|].
+      destruct (qn_of (N (KAttr a c) ch)) eqn:E; [|apply C3_empty].
+      apply C3_of_C2, C2_track_comp. eapply qn_of_attr; eassumption.
+    + (* KSub *)
+      rewrite visit_sub. change (facts Q (N (KSub c) ch)) with (facts_list Q ch).
+      rewrite <- (app_nil_r (facts_list Q ch)). apply C3_union; [apply m_list; assumption|].
+      destruct (qn_of (N (KSub c) ch)) eqn:E; [|apply C3_empty].
+      apply C3_of_C2, C2_track_comp. eapply qn_of_sub; eassumption.
+    + (* KConst *) apply C3_empty.
+    + (* KAug *)
+      destruct ch as [|tg [|v [|]]]; try discriminate.
+      apply andb_true_iff in H. destruct H as [H1 H2].
+      rewrite visit_aug, facts_aug. apply C3_fin.
+      apply (C3_ext _ (facts Q tg ++ facts Q v)).
+      { intros x Hx. rewrite !memf_app. destruct tg as [[] ?]; simpl; try reflexivity.
+        destruct c; simpl; try reflexivity. destruct x; simpl in *; try reflexivity; discriminate. }
+      apply C3_union; [apply m_visit; [apply fok_aug|]; assumption | apply m_visit; assumption].
+    + (* KAnn *)
+      destruct ch as [|tg [|v [|a [|]]]]; try discriminate.
+      apply andb_true_iff in H. destruct H as [H H3]. apply andb_true_iff in H. destruct H as [H1 H2].
+      rewrite visit_ann, facts_ann. apply C3_fin.
+      apply C3_union; [apply m_visit; assumption|].
+      apply C3_union; [apply m_visit; assumption | apply m_visit; [apply fok_ann|]; assumption].
+    + (* KGlobal *)
+      rewrite visit_global. apply C3_fin. repeat split; simpl.
+      * intros m _. unfold bnd. change (facts Q (N (KGlobal ns) ch)) with (map FDeclG ns).
+        rewrite !memf_map by (intro; reflexivity). reflexivity.
+      * intros m. change (facts Q (N (KGlobal ns) ch)) with (map FDeclG ns).
+        rewrite memq_names, (memf_map_same FDeclG) by (intro; reflexivity). reflexivity.
+      * intros m. change (facts Q (N (KGlobal ns) ch)) with (map FDeclG ns).
+        rewrite memf_map by (intro; reflexivity). reflexivity.
+    + (* KNonlocal *)
+      rewrite visit_nonlocal. apply C3_fin. repeat split; simpl.
+      * intros m _. unfold bnd. change (facts Q (N (KNonlocal ns) ch)) with (map FDeclN ns).
+        rewrite memq_names, (memf_map_same FDeclN) by (intro; reflexivity).
+        rewrite memf_map by (intro; reflexivity). reflexivity.
+      * intros m. change (facts Q (N (KNonlocal ns) ch)) with (map FDeclN ns).
+        rewrite memf_map by (intro; reflexivity). reflexivity.
+      * intros m. change (facts Q (N (KNonlocal ns) ch)) with (map FDeclN ns).
+        rewrite memq_names, (memf_map_same FDeclN) by (intro; reflexivity). reflexivity.
+    + (* KAlias *)
+      rewrite visit_alias. change (facts Q (N (KAlias n) ch)) with ([FBind n; FWrite n] ++ facts_list Q ch).
+      apply (C3_ext _ (facts_list Q ch ++ [FBind n; FWrite n])).
+      { intros x _. rewrite !memf_app. btauto. }
+      apply C3_union; [apply m_list; assumption | apply C3_bind_name].
+    + (* KIf *)
+      destruct ch as [|tst r]; try discriminate.
+      apply andb_true_iff in H. destruct H as [H1 H2].
+      rewrite visit_if. change (facts Q (N KIf (NCons tst r))) with (facts Q tst ++ facts_list Q r).
+      apply C3_union; [apply C3_fin, m_visit | apply m_list]; assumption.
+    + (* KWhile *)
+      destruct ch as [|tst r]; try discriminate.
+      apply andb_true_iff in H. destruct H as [H1 H2].
+      rewrite visit_while. change (facts Q (N KWhile (NCons tst r))) with (facts Q tst ++ facts_list Q r).
+      apply C3_union; [apply C3_fin, m_visit | apply m_list]; assumption.
+    + (* KFor *)
+      destruct ch as [|tg [|it r]]; try discriminate.
+      apply andb_true_iff in H. destruct H as [H H3]. apply andb_true_iff in H. destruct H as [H1 H2].
+      rewrite visit_for, facts_for.
+      apply (C3_ext _ ((facts Q tg ++ facts Q it) ++ (facts Q tg ++ facts_list Q r))).
+      { intros x _. rewrite !memf_app. btauto. }
+      apply C3_union; [apply C3_fin, C3_union; apply m_visit; assumption|].
+      apply C3_union; [apply C3_fin, m_visit | apply m_list]; assumption.
+    + (* KWith *) rewrite visit_with. apply C3_fin. apply m_list; assumption.
+    + (* KBlock *) rewrite visit_block. apply C3_fin. apply m_list; assumption.
+    + (* KHandler *)
+      rewrite visit_handler.
+      replace (facts Q (N (KHandler nm) ch))
+        with (match nm with Some m => FBind m :: FExempt m :: facts_list Q ch | None => facts_list Q ch end)
+        by (destruct nm; reflexivity).
+      apply C3_handler. apply m_list; assumption.
+    + (* KDef *)
+      destruct ch as [|decos [|rets [|[ka [|dflt [|[kd decls] [|]]]] [|body [|]]]]]; simpl in H; try discriminate;
+        destruct kd; simpl in H; try discriminate.
+      repeat (apply andb_true_iff in H; let X := fresh "W" in destruct H as [H X]).
+      rewrite visit_def, facts_def. cbv zeta.
+      set (f' := enter f false (fl_pcls f && Nat.eqb n INIT)).
+      assert (Hf' : fok f') by (apply fok_enter; assumption).
+      rewrite <- (app_nil_r (FBind n :: _)).
+      apply C3_union; [|apply C3_fin_iso]. apply C3_fin.
+      apply (C3_ext _ (facts Q decos ++ facts Q rets
+                        ++ (facts_args Q (N ka (NCons dflt (NCons (N KGen decls) NNil)))
+                            ++ leak Q (N ka (NCons dflt (NCons (N KGen decls) NNil)))) ++ [FBind n; FWrite n])).
+      { intros x _. rewrite ?memf_cons, ?memf_app, ?memf_cons, ?memf_app, ?memf_cons, ?memf_nil. btauto. }
+      apply C3_union; [apply m_visit; assumption|].
+      apply C3_union; [apply m_visit; [apply fok_ann|]; assumption|].
+      apply C3_union; [|apply C3_bind_name].
+      apply C3_args_annot; [apply m_visit|]; assumption.
+    + (* KLambda *)
+      destruct ch as [|[ka [|dflt [|[kd decls] [|]]]] [|body [|]]]; simpl in H; try discriminate;
+        destruct kd; simpl in H; try discriminate.
+      repeat (apply andb_true_iff in H; let X := fresh "W" in destruct H as [H X]).
+      rewrite visit_lambda, facts_lambda.
+      set (f' := enter f false false).
+      assert (Hf' : fok f') by (apply fok_enter; assumption).
+      rewrite <- (app_nil_r (_ ++ leak Q _)).
+      apply C3_union; [|apply C3_fin_iso]. apply C3_fin.
+      apply C3_args_annot; [apply m_visit|]; assumption.
+    + (* KClass *)
+      destruct ch as [|decos [|bases [|body [|]]]]; try discriminate.
+      repeat (apply andb_true_iff in H; let X := fresh "W" in destruct H as [H X]).
+      rewrite visit_class, facts_class. cbv zeta.
+      set (f' := enter f true false).
+      assert (Hf' : fok f') by (apply fok_enter; assumption).
+      rewrite <- (app_nil_r (FBind n :: _)).
+      apply C3_union; [|apply C3_fin_iso]. apply C3_fin.
+      apply (C3_ext _ (facts Q decos ++ [FBind n; FWrite n] ++ facts Q bases)).
+      { intros x _. rewrite ?memf_cons, ?memf_app, ?memf_cons, ?memf_app, ?memf_cons, ?memf_nil. btauto. }
+      apply C3_union; [apply m_visit; assumption|].
+      apply C3_union; [apply C3_bind_name | apply m_visit; assumption].
+    + (* KComp *)
+      apply C3_of_C2, cp_visit. exact H.
+  - intros ts f Hf H. destruct ts as [|t r].
+    + apply C3_empty.
+    + simpl in H. apply andb_true_iff in H. destruct H as [H1 H2].
+      rewrite visit_cons, facts_cons. apply C3_union; [apply m_visit | apply m_list]; assumption.
+Qed.
+
+(* ---------------------------------------------------------------- parameters *)
+Lemma pr_track : forall f q c al, pr (track f q c al) = [].
+Proof.
+  intros f q c al. unfold track.
+  destruct (fl_annonly f && negb (fl_ann f)); [reflexivity|].
+  destruct (hidden f q); [reflexivity|].
+  destruct c; [reflexivity| |reflexivity]. destruct (fl_incomp f); reflexivity.
+Qed.
+
+Lemma pr_union : forall s1 s2, pr s1 = [] -> pr s2 = [] -> pr (union s1 s2) = [].
+Proof. intros s1 s2 H1 H2. simpl. rewrite H1, H2. reflexivity. Qed.
+
+Lemma prn_visit : forall t f, cpure t = true -> pr (visit Q f t) = []
+with prn_list : forall ts f, cpure_list ts = true -> pr (visit_list Q f ts) = []
+with prn_gens : forall ts f tg, gens_ok ts = true -> pr (fst (visit_gens Q f tg ts)) = [].
+Proof.
+  - intros t f H. destruct t as [k ch]. destruct k; simpl in H; try discriminate.
+    + rewrite visit_gen. apply prn_list; assumption.
+    + rewrite visit_name. apply pr_track.
+    + rewrite visit_attr. apply pr_union; [apply prn_list; assumption|].
+      destruct (qn_of (N (KAttr a c) ch)); [apply pr_track | reflexivity].
+    + rewrite visit_sub. apply pr_union; [apply prn_list; assumption|].
+      destruct (qn_of (N (KSub c) ch)); [apply pr_track | reflexivity].
+    + reflexivity.
+    + destruct ch as [|[ka [|dflt [|[kd decls] [|]]]] [|body [|]]]; simpl in H; try discriminate;
+        destruct kd; simpl in H; try discriminate.
+      rewrite visit_lambda. reflexivity.
+    + destruct ch as [|[kg gens] [|elts [|]]]; simpl in H; try discriminate.
+      apply andb_true_iff in H. destruct H as [Hg He].
+      rewrite visit_comp. pose proof (prn_gens gens f (fl_tg f) Hg) as G.
+      destruct (visit_gens Q f (fl_tg f) gens) as [s tg]. simpl in G.
+      apply pr_union; [assumption | apply prn_visit; assumption].
+  - intros ts f H. destruct ts as [|t r]; [reflexivity|].
+    simpl in H. apply andb_true_iff in H. destruct H as [H1 H2].
+    rewrite visit_cons. apply pr_union; [apply prn_visit | apply prn_list]; assumption.
+  - intros ts f tg H. destruct ts as [|t r]; [reflexivity|].
+    destruct t as [k [|tgt [|it [|ifs [|]]]]]; simpl in H; try discriminate.
+    apply andb_true_iff in H. destruct H as [H Hr]. apply andb_true_iff in H. destruct H as [Hi Hf].
+    rewrite visit_gens_cons. cbv zeta.
+    pose proof (prn_gens r f (tg ++ targets tgt) Hr) as G.
+    destruct (visit_gens Q f (tg ++ targets tgt) r) as [s3 tg'']. simpl fst in *.
+    repeat apply pr_union; try assumption; apply prn_visit; assumption.
+Qed.
+
+(* _visit_arg_declarations, inside the function's own scope *)
+Lemma decl_pass : forall ts f, fl_annonly f = false -> decls_ok ts = true ->
+  (forall n, exemptf n (facts_decls Q ts) = false ->
+     memq (QS n) (bd (visit_list Q f ts)) = mem_name n (arg_names ts))
+  /\ (forall n, memq (QS n) (gl (visit_list Q f ts)) = false)
+  /\ (forall n, memq (QS n) (nl (visit_list Q f ts)) = false)
+  /\ (forall n, memq (QS n) (pr (visit_list Q f ts)) = mem_name n (arg_names ts)).
+Proof.
+  intros ts f Ha. induction ts as [|t r IH]; intros H.
+  - repeat split; reflexivity.
+  - destruct t as [k ch]. simpl in H. destruct k; try discriminate.
+    apply andb_true_iff in H. destruct H as [Hc Hr].
+    destruct (IH Hr) as [b2 [g2 [n2 p2]]].
+    assert (A : C2 (if q_annfn Q then visit_list Q f ch else empty) (facts_list Q ch)).
+    { destruct (q_annfn Q); [apply cp_list; assumption|].
+      destruct (cp_list ch f Hc) as [_ [_ [_ o]]]. repeat split; simpl; auto; try discriminate; apply o. }
+    assert (P : pr (if q_annfn Q then visit_list Q f ch else empty) = []).
+    { destruct (q_annfn Q); [apply prn_list; assumption | reflexivity]. }
+    destruct A as [b1 [g1 [n1 o1]]].
+    rewrite visit_cons, visit_arg, Ha, facts_decls_cons.
+    repeat split.
+    + intros m Hm. rewrite exemptf_app in Hm. apply orb_false_iff in Hm. destruct Hm as [Hm1 Hm2].
+      simpl bd. rewrite !memq_app, (b2 m Hm2). simpl arg_names. simpl mem_name.
+      assert (Z : memq (QS m) (bd (if q_annfn Q then visit_list Q f ch else empty)) = false).
+      { destruct (memq (QS m) (bd (if q_annfn Q then visit_list Q f ch else empty))) eqn:E; [|reflexivity].
+        unfold exemptf in Hm1. rewrite (b1 m E) in Hm1. discriminate. }
+      rewrite Z. simpl. rewrite orb_false_r. reflexivity.
+    + intros m. simpl gl. rewrite !memq_app, g1, g2. reflexivity.
+    + intros m. simpl nl. rewrite !memq_app, n1, n2. reflexivity.
+    + intros m. simpl pr. rewrite P. simpl. rewrite p2. reflexivity.
+Qed.
+
+(* ---------------------------------------------------------------- functions *)
+(* the scope of a def / lambda with arguments node `args` (well-formed: N _ [defaults; N KGen decls])
+   and body `body`, analysed under flags f' *)
+Lemma fn_scope_matches : forall f ka dflt decls body n,
+  fok f -> decls_ok decls = true -> wf body = true ->
+  let args := N ka (NCons dflt (NCons (N KGen decls) NNil)) in
+  let sc := fn_scope Q f args body in
+  (exemptf n (facts_decls Q decls) = false -> exempt Q body n = false ->
+     memq (QS n) (bd sc) && negb (memq (QS n) (gl sc)) && negb (memq (QS n) (nl sc)) = is_local Q args body n)
+  /\ memq (QS n) (gl sc) = declared_global Q body n
+  /\ memq (QS n) (nl sc) = declared_nonlocal Q body n
+  /\ memq (QS n) (pr (visit_args_decl Q f args)) = is_param args n.
+Proof.
+  intros f ka dflt decls body n Hf Hd Hb args sc.
+  destruct (m_visit body f Hf Hb) as [b1 [g1 n1]].
+  destruct Hf as [Ha _].
+  destruct (decl_pass decls f Ha Hd) as [b2 [g2 [n2 p2]]].
+  assert (G : memq (QS n) (gl sc) = declared_global Q body n).
+  { unfold sc, fn_scope, args. rewrite visit_args_decl_eq, visit_gen. simpl gl.
+    rewrite memq_app, g2, g1. reflexivity. }
+  assert (NL : memq (QS n) (nl sc) = declared_nonlocal Q body n).
+  { unfold sc, fn_scope, args. rewrite visit_args_decl_eq, visit_gen. simpl nl.
+    rewrite memq_app, n2, n1. reflexivity. }
+  repeat split; try assumption.
+  - intros E1 E2. rewrite G, NL. unfold sc, fn_scope, args. rewrite visit_args_decl_eq, visit_gen. simpl bd.
+    rewrite memq_app, (b2 n E1), (b1 n E2). unfold is_local, is_param, declared_global, declared_nonlocal, bnd.
+    simpl params. btauto.
+  - unfold args. rewrite visit_args_decl_eq, visit_gen. apply p2.
+Qed.
+
+(* ---------------------------------------------------------------- statements *)
+(* expressions and targets of simple statements: names, attributes, subscripts, constants, generic
+   nodes (operators, calls, tuples, ...), import aliases *)
+Fixpoint fexpr (t : node) {struct t} : bool :=
+  match t with
+  | N k ch =>
+    match k with
+    | KGen | KName _ _ | KAttr _ _ | KSub _ | KConst _ | KAlias _ => fexpr_list ch
+    | _ => false
+    end
+  end
+with fexpr_list (ts : nodes) {struct ts} : bool :=
+  match ts with NNil => true | NCons t r => fexpr t && fexpr_list r end.
+
+(* every name the evaluation rule says is read / written / deleted is in read / modified / deleted *)
+Definition R3 (s : scope) (F : list fact) : Prop :=
+  (forall n, memf (FRead n) F = true -> memq (QS n) (rd s) = true)
+  /\ (forall n, memf (FWrite n) F = true -> memq (QS n) (md s) = true)
+  /\ (forall n, memf (FDel n) F = true -> memq (QS n) (dl s) = true).
+
+Lemma R3_nil : forall s, R3 s [].
+Proof. intros s. repeat split; simpl; intros; discriminate. Qed.
+
+Lemma R3_union : forall s1 s2 F1 F2, R3 s1 F1 -> R3 s2 F2 -> R3 (union s1 s2) (F1 ++ F2).
+Proof.
+  intros s1 s2 F1 F2 [r1 [w1 d1]] [r2 [w2 d2]]. repeat split; simpl; intros n H;
+    rewrite memf_app in H; rewrite memq_app; apply orb_true_iff in H; destruct H as [H|H].
+  - rewrite (r1 n H). reflexivity.
+  - rewrite (r2 n H). apply orb_true_r.
+  - rewrite (w1 n H). reflexivity.
+  - rewrite (w2 n H). apply orb_true_r.
+  - rewrite (d1 n H). reflexivity.
+  - rewrite (d2 n H). apply orb_true_r.
+Qed.
+
+Lemma R3_track : forall f n c ch, fok f -> R3 (track f (QS n) c false) (facts Q (N (KName n c) ch)).
+Proof.
+  intros f n c ch H. unfold track. rewrite (hidden_fok f (QS n) H).
+  destruct H as [H1 [H2 _]]. rewrite H1, H2. simpl.
+  destruct c; repeat split; simpl; intros m Hm; rewrite ?orb_false_r in *; try discriminate; try assumption.
+Qed.
+
+Lemma r_visit : forall t f, fok f -> fexpr t = true -> R3 (visit Q f t) (facts Q t)
+with r_list : forall ts f, fok f -> fexpr_list ts = true -> R3 (visit_list Q f ts) (facts_list Q ts).
+Proof.
+  - intros t f Hf H. destruct t as [k ch]. destruct k; simpl in H; try discriminate.
+    + rewrite visit_gen. apply r_list; assumption.
+    + rewrite visit_name. apply R3_track; assumption.
+    + rewrite visit_attr. change (facts Q (N (KAttr a c) ch)) with (facts_list Q ch).
+      rewrite <- (app_nil_r (facts_list Q ch)). apply R3_union; [apply r_list; assumption | apply R3_nil].
+    + rewrite visit_sub. change (facts Q (N (KSub c) ch)) with (facts_list Q ch).
+      rewrite <- (app_nil_r (facts_list Q ch)). apply R3_union; [apply r_list; assumption | apply R3_nil].
+    + apply R3_nil.
+    + rewrite visit_alias. change (facts Q (N (KAlias n) ch)) with ([FBind n; FWrite n] ++ facts_list Q ch).
+      destruct (r_list ch f Hf H) as [r1 [w1 d1]].
+      repeat split; simpl; intros m Hm; rewrite memq_app.
+      * rewrite (r1 m Hm). reflexivity.
+      * rewrite memq_single. destruct (Nat.eqb m n) eqn:E; simpl in Hm; [apply orb_true_r | rewrite (w1 m Hm); reflexivity].
+      * rewrite (d1 m Hm). reflexivity.
+  - intros ts f Hf H. destruct ts as [|t r]; [apply R3_nil|].
+    simpl in H. apply andb_true_iff in H. destruct H as [H1 H2].
+    rewrite visit_cons, facts_cons. apply R3_union; [apply r_visit | apply r_list]; assumption.
+Qed.
+
+(* the scope recorded on an augmented assignment *)
+Lemma r_aug : forall f tg v, fok f -> fexpr tg = true -> fexpr v = true ->
+  R3 (union (visit Q (with_aug f) tg) (visit Q f v)) (facts Q (N KAug (NCons tg (NCons v NNil)))).
+Proof.
+  intros f tg v Hf H1 H2. rewrite facts_aug.
+  pose proof (r_visit tg (with_aug f) (fok_aug f Hf) H1) as A.
+  pose proof (r_visit v f Hf H2) as B.
+  pose proof (R3_union _ _ _ _ A B) as [r [w d]].
+  repeat split; intros n H; rewrite memf_app in H; apply orb_true_iff in H; destruct H as [H|H]; auto.
+  - destruct tg as [[] ch]; simpl in H; try discriminate. destruct c; simpl in H; try discriminate.
+    rewrite orb_false_r in H. apply Nat.eqb_eq in H; subst n0.
+    simpl rd. rewrite memq_app, visit_name. unfold track. rewrite (hidden_fok _ (QS n) (fok_aug f Hf)).
+    destruct Hf as [X1 [X2 _]]. simpl. rewrite X1, X2. simpl. rewrite Nat.eqb_refl. reflexivity.
+  - destruct tg as [[] ch]; simpl in H; try discriminate. destruct c; simpl in H; discriminate.
+  - destruct tg as [[] ch]; simpl in H; try discriminate. destruct c; simpl in H; discriminate.
+Qed.
+
+End Proofs.
